@@ -28,7 +28,7 @@ import (
 // order in the repo, made a recorded choice by the rewriter) is enumerated through the salt.
 
 func init() {
-	Register(&PropertyDef{ID: "C17", Strata: []string{"failover", "rename", "gc", "failover-both", "gc-live", "gccmd", "gccmd-failover", "modeswitch"}, Run: runC17, StepCap: 200000})
+	Register(&PropertyDef{ID: "C17", Strata: []string{"failover", "rename", "gc", "failover-both", "gc-live", "gccmd", "gccmd-failover", "gccmd-concurrent", "modeswitch"}, Run: runC17, StepCap: 200000})
 }
 
 const cpIndexKey = "redis-gunyu-checkpoint-hash" // documented: run id -> checkpoint key name, database 0
@@ -94,6 +94,10 @@ type c17sim struct {
 	extra []*simredis.Server // further doubles an operation talks to (source nodes); never crashed
 	viol  *Violation
 	prop  string // property the run reports under ("" = C17)
+	// between: run once, from the scheduler, at the moment the operation's first request to the target is pending and
+	// not yet executed (what another process does in that window); frozen: sessions a nested operation must not step
+	between func()
+	frozen  map[*simredis.Session]bool
 }
 
 func (c *c17sim) setViolation(rule, sig, format string, a ...any) {
@@ -152,7 +156,30 @@ func (c *c17sim) runOp(name string, fn func(ctx context.Context) error, crashAft
 		if stepped {
 			continue
 		}
-		ready := c.srv.Ready()
+		var ready []*simredis.Session
+		for _, ss := range c.srv.Ready() {
+			if !c.frozen[ss] {
+				ready = append(ready, ss)
+			}
+		}
+		if len(ready) > 0 && c.between != nil {
+			// the outer operation waits for its first answer from the target: another process acts now
+			fn := c.between
+			c.between = nil
+			outer := c.frozen
+			c.frozen = map[*simredis.Session]bool{}
+			for k := range outer {
+				c.frozen[k] = true
+			}
+			for _, ss := range c.srv.Sessions {
+				if !ss.Dead {
+					c.frozen[ss] = true
+				}
+			}
+			fn()
+			c.frozen = outer
+			continue
+		}
 		if len(ready) > 0 {
 			c.srv.Step(ready[0])
 			continue
@@ -350,6 +377,7 @@ func runC17(r *Run, stratum string) *Violation {
 	var extraServers []*simredis.Server
 	var opName string
 	var op func(ctx context.Context) error
+	var concurrent func() // what another process does while the operation waits for its first answer from the target
 	liveIDs := map[string]bool{}
 	switch stratum {
 	case "failover", "failover-both":
@@ -371,7 +399,7 @@ func runC17(r *Run, stratum string) *Violation {
 			defer cli.Close()
 			return checkpoint.UpdateCheckpoint(cli, local, ids)
 		}
-	case "gccmd", "gccmd-failover":
+	case "gccmd", "gccmd-failover", "gccmd-concurrent":
 		// the REAL cmd.SyncerCmd.gcStaleCheckpoint (through an injected accessor): it asks every source node for its
 		// replication ids (INFO replication) and collects stale checkpoints on every target node.
 		ids = []string{oldID, newID}
@@ -395,6 +423,26 @@ func runC17(r *Run, stratum string) *Violation {
 		sc.Output.Redis.SetClusterShards([]*config.RedisClusterShard{{Master: config.RedisNode{Address: simTargetAddr}}})
 		sc.Channel.Type = config.ChannelTypeMemory
 		sc.Channel.StaleCheckpointDuration = staleDur
+		if stratum == "gccmd-concurrent" {
+			// between the collector's poll of the sources and its scan of the target the source fails over and the
+			// syncer moves the checkpoint to the new id (real UpdateCheckpoint): the id is reported by a source all
+			// the time, under its old or its new name, and its only checkpoint is the newest one
+			ids = []string{newID, oldID}
+			concurrent = func() {
+				srcSrv.Repl.ID, srcSrv.Repl.ID2, srcSrv.Repl.SecondOffset = newID, oldID, 1000
+				r.W.Fault("failover_during_gc")
+				if _, err := c.runOp("syncer moves the checkpoint to the new id", func(ctx context.Context) error {
+					cli, e := client.NewRedis(targetRedisCfg())
+					if e != nil {
+						return e
+					}
+					defer cli.Close()
+					return checkpoint.UpdateCheckpoint(cli, local, []string{newID, oldID})
+				}, -1); err != nil {
+					Inconc("moving the checkpoint during the collection failed: %v", err)
+				}
+			}
+		}
 		op = func(ctx context.Context) error {
 			cmd.VerifGcStaleCheckpoint(ctx)
 			return nil
@@ -439,6 +487,9 @@ func runC17(r *Run, stratum string) *Violation {
 	r.Logf("C17 %s", r.Sample)
 	isGC := strings.HasPrefix(stratum, "gc")
 	c.extra = extraServers
+	if stratum == "gccmd-concurrent" {
+		liveIDs[newID] = true
+	}
 	if isGC && !liveIDs[oldID] {
 		// GC of an id no source reports may remove everything: only the 'live id' clause applies
 		before.ok = false
@@ -447,7 +498,11 @@ func runC17(r *Run, stratum string) *Violation {
 	check := func(k int, salt int) {
 		if isGC && liveIDs[oldID] {
 			// the newest entry of a live id must still be there, whatever prefix of the GC ran
-			after := readPositionModel(c.srv, []string{oldID})
+			liveSet := []string{oldID}
+			if stratum == "gccmd-concurrent" {
+				liveSet = ids // the same history under its new or its old id
+			}
+			after := readPositionModel(c.srv, liveSet)
 			b0 := before
 			if b0.ok && (!after.ok || after.off < b0.off) {
 				c.setViolation("C17.gc_newest", "GC removed the newest checkpoint of a live replication id", "after %d requests of %s (db order rotation %d) the newest checkpoint of live id %s.. (offset %d in db %v) is gone: now ok=%v off=%d; state: %s", k, opName, salt, oldID[:6], b0.off, b0.dbs, after.ok, after.off, describeKeyspace(c.srv))
@@ -501,6 +556,10 @@ func runC17(r *Run, stratum string) *Violation {
 	for salt := 0; salt < salts && c.viol == nil; salt++ {
 		r.W.SetSalt(salt)
 		c.srv.RestoreDBs(initial)
+		c.between = concurrent
+		if concurrent != nil && len(extraServers) > 0 {
+			extraServers[0].Repl.ID, extraServers[0].Repl.ID2 = oldID, ""
+		}
 		n, err := c.runOp(opName, op, -1)
 		r.Logf("full run of %s: %d requests, err=%v (rotation %d)", opName, n, err, salt)
 		if err != nil {
@@ -515,6 +574,10 @@ func runC17(r *Run, stratum string) *Violation {
 		for k := 0; k < n && c.viol == nil; k++ {
 			c.srv.RestoreDBs(initial)
 			r.W.SetSalt(salt)
+			c.between = concurrent
+			if concurrent != nil && len(extraServers) > 0 {
+				extraServers[0].Repl.ID, extraServers[0].Repl.ID2 = oldID, ""
+			}
 			c.runOp(opName, op, k)
 			check(k, salt)
 			r.Evals++
